@@ -54,12 +54,69 @@ func (fx *FuncCtx) queryWith(ob *Obligation, probes []string, hyp string) string
 			}
 		}
 	}
+	if ob.Kind == "pre" && fx.ct != nil && fx.ct.Uses != nil {
+		// call-site preconditions: `uses pre.<callee>.<label>: ...` (label "pre:pkg.(*T).f.lbl@callN")
+		l := strings.TrimPrefix(ob.Label, "pre:")
+		if i := strings.LastIndex(l, "@"); i >= 0 {
+			l = l[:i]
+		}
+		lbl := l
+		callee := ""
+		if i := strings.LastIndex(l, "."); i >= 0 {
+			lbl = l[i+1:]
+			callee = shortCallee(l[:i])
+		}
+		if list, ok := fx.ct.Uses["pre."+callee+"."+lbl]; ok {
+			uses = map[string]bool{}
+			for _, u := range list {
+				uses[u] = true
+			}
+		}
+	}
+	var hidden map[string]bool
+	if fx.ct != nil && fx.ct.Uses != nil && ob.Kind != "inv-entry" {
+		// `uses hidden: t1 t2 ...`: hypotheses left out of every obligation whose own list does not name them
+		if list, ok := fx.ct.Uses["hidden"]; ok {
+			hidden = map[string]bool{}
+			for _, u := range list {
+				hidden[u] = true
+			}
+		}
+	}
+	obRet := ""
+	if i := strings.LastIndex(ob.Label, "@ret"); i >= 0 {
+		obRet = ob.Label[i:]
+	}
 	for _, l := range fx.lines[:ob.Prefix] {
+		if i := strings.LastIndex(l, ";@hyp:hint."); i >= 0 {
+			// a lemma proved at one return is of no use at another (its path condition is false there)
+			if j := strings.LastIndex(l, "@ret"); j > i {
+				if l[j:] != obRet {
+					continue
+				}
+				l = l[:j]
+			}
+		}
+		if uses == nil && hidden != nil {
+			if i := strings.LastIndex(l, ";@hyp:"); i >= 0 && hidden[l[i+6:]] {
+				continue
+			}
+		}
 		if uses != nil {
 			if i := strings.LastIndex(l, ";@hyp:"); i >= 0 && !uses[l[i+6:]] {
 				// hypothesis hidden from this obligation (sound: fewer assumptions);
 				// lemmas (hint.*) stay visible unless the list says -hints
-				if !strings.HasPrefix(l[i+6:], "hint.") || uses["-hints"] {
+				tag := l[i+6:]
+				switch {
+				case strings.HasPrefix(tag, "hint."):
+					if uses["-hints"] {
+						continue
+					}
+				case strings.HasPrefix(tag, "call."):
+					if uses["-calls"] {
+						continue
+					}
+				default:
 					continue
 				}
 			}
